@@ -110,29 +110,47 @@ Proof.
 Qed.
 
 (* ---------- consumers are created with the generation / member id of the sync they come from ---------- *)
+Definition keeps_ids (a : act) : Prop := forall s, generation (fst (a s)) = generation s /\ member (fst (a s)) = member s.
+Lemma ki_seq : forall a b, keeps_ids a -> keeps_ids b -> keeps_ids (a ;; b).
+Proof. intros a b Ha Hb s. rewrite seq_fst. destruct (Hb (fst (a s))) as [A B]. destruct (Ha s) as [C D]. split; congruence. Qed.
+Lemma ki_start_consumers : forall tps, keeps_ids (start_consumers tps).
+Proof.
+  intros tps s. destruct (start_consumers_spec tps s) as [SC _]. unfold same_core in SC. destruct SC as (_ & A & B & _).
+  destruct (fst (start_consumers tps s)). ds s. cbn in *. auto.
+Qed.
+Lemma ki_join_complete : forall asg, keeps_ids (on_join_complete asg).
+Proof.
+  intros asg s. unfold on_join_complete. destruct (is_group s); [|split; reflexivity]. destruct (stop_requested s); [split; reflexivity|].
+  apply ki_start_consumers.
+Qed.
+Lemma ki_gen_end : keeps_ids gen_end. Proof. intros s. ds s. split; reflexivity. Qed.
+Lemma ki_gen_fail_nk : keeps_ids (gen_fail KNonKafka).
+Proof. unfold gen_fail. cbn [is_kafka]. apply ki_seq; [apply ki_gen_end|]. intros s. ds s. split; reflexivity. Qed.
+Lemma ki_reset_hb : keeps_ids reset_heartbeat_timer. Proof. intros s. rewrite reset_hb_fst. ds s. split; reflexivity. Qed.
+Lemma ki_upd_ca : forall asg, keeps_ids (upd (set_cur_assign asg)). Proof. intros asg s. ds s. split; reflexivity. Qed.
+Lemma ki_upd_rn : forall b, keeps_ids (upd (set_rejoin_needed b)). Proof. intros b s. ds s. split; reflexivity. Qed.
+
 Lemma commit_identity : forall gk evs e cid t p g m, let s := state_after gk evs in
   In (OStartC cid t p g m) (snd (step s e)) ->
-  exists rid asg, e = ESync rid (SOk asg) /\ In (t, p) asg /\ g = generation s /\ m = member s /\
+  exists rid asg, (e = ESync rid (SOk asg) \/ exists n, e = ESync rid (SOkRaise asg n)) /\ In (t, p) asg /\ g = generation s /\ m = member s /\
                   stopping s = false /\ stop_requested s = false /\ is_group s = true /\
                   (* and the new table entry is for the generation the member is in after the step *)
                   generation (fst (step s e)) = generation s /\ member (fst (step s e)) = member s.
 Proof.
   intros gk evs e cid t p g m s H. pose proof (step_outputs s e _ H) as X. cbn in X.
-  destruct X as (rid & asg & -> & SP & G & I1 & I2 & I3). apply stop_pend_false in SP. destruct SP as [S1 S2].
-  exists rid, asg. repeat split; auto.
-  - (* generation/member untouched by a successful sync *)
-    clear - H. clearbody s. cbn [step] in *. unfold on_sync, with_gen in *. destruct (take_first _ (gens s)) as [[g0 rest]|]; [|destruct H].
-    destruct (stop_pend (set_gens rest s)); [destruct H|]. rewrite !seq_fst. unfold upd, gen_end. cbn [fst]. rewrite reset_hb_fst.
-    unfold on_join_complete. match goal with |- context [is_group ?x] => destruct (is_group x) end; [|ds s; reflexivity].
-    match goal with |- context [stop_requested ?x] => destruct (stop_requested x) end; [ds s; reflexivity|].
-    match goal with |- context [start_consumers ?a ?b] => destruct (start_consumers_spec a b) as [SC _]; unfold same_core in SC;
-      destruct SC as (_ & _ & SC & _); destruct (fst (start_consumers a b)) end. cbn in *. rewrite SC. ds s. reflexivity.
-  - clear - H. clearbody s. cbn [step] in *. unfold on_sync, with_gen in *. destruct (take_first _ (gens s)) as [[g0 rest]|]; [|destruct H].
-    destruct (stop_pend (set_gens rest s)); [destruct H|]. rewrite !seq_fst. unfold upd, gen_end. cbn [fst]. rewrite reset_hb_fst.
-    unfold on_join_complete. match goal with |- context [is_group ?x] => destruct (is_group x) end; [|ds s; reflexivity].
-    match goal with |- context [stop_requested ?x] => destruct (stop_requested x) end; [ds s; reflexivity|].
-    match goal with |- context [start_consumers ?a ?b] => destruct (start_consumers_spec a b) as [SC _]; unfold same_core in SC;
-      destruct SC as (_ & SC & _); destruct (fst (start_consumers a b)) end. cbn in *. rewrite SC. ds s. reflexivity.
+  destruct X as (rid & asg & E & SP & G & I1 & I2 & I3). apply stop_pend_false in SP. destruct SP as [S1 S2].
+  exists rid, asg. split; [exact E|]. repeat split; auto.
+  all: clear - H E; clearbody s.
+  all: assert (K : generation (fst (step s e)) = generation s /\ member (fst (step s e)) = member s);
+    [|destruct K; assumption].
+  all: destruct E as [->|[n ->]]; cbn [step] in *; unfold on_sync, with_gen in *;
+    (destruct (take_first _ (gens s)) as [[g0 rest]|]; [|destruct H]);
+    (destruct (stop_pend (set_gens rest s)); [destruct H|]);
+    assert (G0 : generation (set_gens rest s) = generation s /\ member (set_gens rest s) = member s) by (ds s; split; reflexivity);
+    destruct G0 as [G1 G2]; rewrite <- G1, <- G2.
+  all: try (destruct (ctor_raises asg n (set_gens rest s))).
+  all: repeat first [apply ki_seq | apply ki_upd_ca | apply ki_reset_hb | apply ki_upd_rn | apply ki_join_complete | apply ki_start_consumers
+                    | apply ki_gen_end | apply ki_gen_fail_nk].
 Qed.
 
 (* ---------- after stop() ---------- *)
